@@ -33,7 +33,8 @@ Inductive err :=
 | ErrOverrun          (* not enough data for the cells *)
 | ErrTimestampRange   (* timestamp out of range *)
 | ErrGlonassMillis    (* milliseconds in timestamp out of range *)
-| ErrUnknownType.     (* MSM type whose time we cannot decode *)
+| ErrUnknownType      (* MSM type whose time we cannot decode *)
+| ErrFuel.            (* model only: recursion fuel exhausted (excluded by theorem) *)
 
 (* Result of a modelled Go call: a value, an error value, or a run-time panic
    (index out of range).  "Never panics" theorems say Panic is not returned. *)
